@@ -379,4 +379,141 @@ theorem parse_print_aux (env : Env) (s : Suppr) (h : printable env s = true) :
   rw [parseExtras_extrasOf s _ rfl rfl]
   rfl
 
+/-! ### whole files -/
+
+theorem addSuppressionLine_print (env : Env) (l : List Suppr) (s : Suppr) (h : printable env s = true) :
+    addSuppressionLine env l (toString s) =
+      (match addSuppression l (printedFields s) with
+       | (.ok, l') => (none, l')
+       | (e, l') => (some (.add e), l')) := by
+  unfold addSuppressionLine
+  rw [parse_print_aux env s h]
+  rfl
+
+theorem parseLines_print (env : Env) : ∀ (ss : List Suppr) (l : List Suppr),
+    (∀ s ∈ ss, printable env s = true ∧ skipLine (toString s) = false) →
+    parseLines env (ss.map toString) l = addSeq (ss.map printedFields) l := by
+  intro ss
+  induction ss with
+  | nil => intro l _; rfl
+  | cons s r ih =>
+    intro l h
+    obtain ⟨hp, hk⟩ := h s (by simp)
+    simp only [List.map_cons, parseLines, hk, Bool.false_eq_true, if_false, addSeq]
+    rw [addSuppressionLine_print env l s hp]
+    rcases hadd : addSuppression l (printedFields s) with ⟨e, l'⟩
+    cases e <;> simp only []
+    exact ih l' (fun s' hs' => h s' (List.mem_cons_of_mem _ hs'))
+
+theorem splitOn_fileOf (lines : List Str) (h : ∀ ln ∈ lines, ∀ c ∈ ln, c ≠ '\n') :
+    splitOn '\n' (lines.map fun ln => ln ++ ['\n']).flatten = lines ++ [[]] := by
+  induction lines with
+  | nil => rfl
+  | cons ln r ih =>
+    simp only [List.map_cons, List.flatten_cons, List.append_assoc, List.singleton_append, List.cons_append, List.nil_append]
+    rw [splitOn_append '\n' ln _ (h ln (by simp)), ih (fun x hx => h x (List.mem_cons_of_mem _ hx))]
+
+theorem parseLines_append_blank (env : Env) : ∀ (lines : List Str) (l : List Suppr),
+    parseLines env (lines ++ [[]]) l = parseLines env lines l := by
+  intro lines
+  induction lines with
+  | nil => intro l; simp [parseLines, skipLine]
+  | cons ln r ih =>
+    intro l
+    simp only [List.cons_append, parseLines]
+    split
+    · exact ih l
+    · rcases addSuppressionLine env l ln with ⟨e, l'⟩
+      cases e with
+      | none => exact ih l'
+      | some e => rfl
+
+theorem map_cr_id (d : Str) (h : ∀ c ∈ d, c ≠ '\r') : (d.map fun c => if c = '\r' then '\n' else c) = d := by
+  induction d with
+  | nil => rfl
+  | cons a r ih =>
+    simp only [List.map_cons, h a (by simp), if_false]
+    rw [ih (fun c hc => h c (List.mem_cons_of_mem _ hc))]
+
+/-- `parseFile` of a file holding one printed suppression per line = adding these suppressions in order -/
+theorem parseFile_print_aux (env : Env) (ss : List Suppr) (l : List Suppr)
+    (h : ∀ s ∈ ss, printable env s = true ∧ skipLine (toString s) = false ∧
+      (toString s).all (fun c => c != '\n' && c != '\r') = true) :
+    parseFile env l (fileOf ss) = addSeq (ss.map printedFields) l := by
+  unfold parseFile fileOf
+  have hnl : ∀ ln ∈ ss.map toString, ∀ c ∈ ln, c ≠ '\n' := by
+    intro ln hln c hc
+    obtain ⟨s, hs, rfl⟩ := List.mem_map.1 hln
+    have := (h s hs).2.2
+    simp only [List.all_eq_true, Bool.and_eq_true, bne_iff_ne, ne_eq] at this
+    exact (this c hc).1
+  have hcr : ∀ c ∈ (ss.map fun s => toString s ++ ['\n']).flatten, c ≠ '\r' := by
+    intro c hc
+    simp only [List.mem_flatten, List.mem_map] at hc
+    obtain ⟨ln, ⟨s, hs, rfl⟩, hc⟩ := hc
+    rcases List.mem_append.1 hc with hc | hc
+    · have := (h s hs).2.2
+      simp only [List.all_eq_true, Bool.and_eq_true, bne_iff_ne, ne_eq] at this
+      exact (this c hc).2
+    · simp only [List.mem_singleton] at hc; subst hc; decide
+  rw [map_cr_id _ hcr]
+  have : (ss.map fun s => toString s ++ ['\n']) = (ss.map toString).map fun ln => ln ++ ['\n'] := by
+    simp [List.map_map]
+  rw [this, splitOn_fileOf _ hnl, parseLines_append_blank]
+  exact parseLines_print env ss l (fun s hs => ⟨(h s hs).1, (h s hs).2.1⟩)
+
+/-! ### XML -/
+
+theorem xmlFields_id (env : Env) (t : Str) (r : List (Str × Str)) (s : Suppr) :
+    xmlFields env (("id".toList, t) :: r) s = xmlFields env r { s with errorId := t } := by
+  rw [xmlFields]; simp
+
+theorem xmlFields_file (env : Env) (t : Str) (r : List (Str × Str)) (s : Suppr) :
+    xmlFields env (("fileName".toList, t) :: r) s = xmlFields env r { s with fileName := env.simplify t } := by
+  have e1 : ("fileName".toList = "id".toList) = False := by decide
+  rw [xmlFields]; simp only [e1, if_false, if_true]
+
+theorem xmlFields_line (env : Env) (t : Str) (n : Int) (r : List (Str × Str)) (s : Suppr) (h : strToInt t = .ok n) :
+    xmlFields env (("lineNumber".toList, t) :: r) s = xmlFields env r { s with lineNumber := n } := by
+  have e2 : ("lineNumber".toList = "id".toList) = False := by decide
+  have e3 : ("lineNumber".toList = "fileName".toList) = False := by decide
+  rw [xmlFields]; simp only [e2, e3, if_false, if_true, h]
+
+theorem xmlFields_sym (env : Env) (t : Str) (r : List (Str × Str)) (s : Suppr) :
+    xmlFields env (("symbolName".toList, t) :: r) s = xmlFields env r { s with symbolName := t } := by
+  have e4 : ("symbolName".toList = "id".toList) = False := by decide
+  have e5 : ("symbolName".toList = "fileName".toList) = False := by decide
+  have e6 : ("symbolName".toList = "lineNumber".toList) = False := by decide
+  rw [xmlFields]; simp only [e4, e5, e6, if_false, if_true]
+
+theorem xmlFields_print (env : Env) (s : Suppr) (h1 : intMin ≤ s.lineNumber) (h2 : s.lineNumber ≤ intMax) :
+    xmlFields env (xmlOf s) {} = .ok (xmlFieldsOf env s) := by
+  have hline := strToInt_intToDec _ h1 h2
+  unfold xmlOf xmlFieldsOf
+  by_cases hf : s.fileName.isEmpty = true <;> by_cases hl : s.lineNumber = -1 <;>
+    by_cases hs : s.symbolName.isEmpty = true <;>
+    simp only [hf, hl, hs, if_true, if_false, Bool.false_eq_true, List.append_nil, List.nil_append, List.singleton_append,
+      List.cons_append] <;>
+    rw [xmlFields_id] <;>
+    (try rw [xmlFields_file]) <;>
+    (try rw [xmlFields_line env _ _ _ _ hline]) <;>
+    (try rw [xmlFields_sym]) <;>
+    rw [xmlFields] <;>
+    (try (have hs' : s.symbolName = [] := by simpa using hs)) <;>
+    simp_all
+
+theorem parseXml_print_aux (env : Env) : ∀ (ss : List Suppr) (l : List Suppr),
+    (∀ s ∈ ss, intMin ≤ s.lineNumber ∧ s.lineNumber ≤ intMax) →
+    parseXml env (ss.map fun s => ("suppress".toList, xmlOf s)) l = addSeqX (ss.map (xmlFieldsOf env)) l := by
+  intro ss
+  induction ss with
+  | nil => intro l _; rfl
+  | cons s r ih =>
+    intro l h
+    obtain ⟨h1, h2⟩ := h s (by simp)
+    simp only [List.map_cons, parseXml, ne_eq, not_true_eq_false, if_false, xmlFields_print env s h1 h2, addSeqX]
+    rcases hadd : addSuppression l (xmlFieldsOf env s) with ⟨e, l'⟩
+    cases e <;> simp only []
+    exact ih l' (fun s' hs' => h s' (List.mem_cons_of_mem _ hs'))
+
 end Cppcheck.SuppressParse
